@@ -169,6 +169,23 @@ class Check:
     import hypothesis
     from hypothesis import HealthCheck, Phase, settings
     from . import mj
+    rp = getattr(self, 'replay_body', None)
+    if rp is not None:
+      # generic replay: only the named Hypothesis test is run, on the recorded (pickled) case
+      c = rp.get('case') if isinstance(rp.get('case'), dict) else {}
+      if c.get('check') != name or 'pickle' not in c:
+        return True
+      import base64, pickle
+      case = pickle.loads(base64.b64decode(c['pickle']))
+      self.replay_done = True
+      try:
+        test(case)
+        self.nontrivial.update(['replay-a', 'replay-b'])
+        return True
+      except (Violation, AssertionError, mj.MjError) as e:
+        self.violation('%s: %s' % (type(e).__name__, e), dict(check=name, case=case, pickle=c['pickle']),
+                       bucket=getattr(e, 'bucket', None) or name, fingerprint=fingerprint(case, e) if fingerprint else None)
+        return False
     if shrink is None:
       shrink = True
     phases = [Phase.explicit, Phase.generate] + ([Phase.shrink] if shrink else [])
@@ -205,7 +222,13 @@ class Check:
       msg = '%s: %s' % (type(e).__name__, e)
       bucket = getattr(e, 'bucket', None) or name
       fp = fingerprint(case, e) if fingerprint else None
-      self.violation(msg, dict(check=name, case=case), bucket=bucket, fingerprint=fp)
+      rep = dict(check=name, case=case)
+      try:
+        import base64, pickle
+        rep['pickle'] = base64.b64encode(pickle.dumps(case, protocol=4)).decode()   # exact object for the generic replay
+      except Exception:
+        pass
+      self.violation(msg, rep, bucket=bucket, fingerprint=fp)
       return False
 
   # ---- finish
@@ -245,7 +268,25 @@ def _child(pid, tier, seed, replay):
     if replay:
       with open(replay) as f:
         body = json.load(f)
-      mod.replay(ck, body)
+      if hasattr(mod, 'replay'):
+        mod.replay(ck, body)
+      else:
+        # generic replay. (a) a failure found by ck.run_hypothesis carries the pickled shrunk case: main() is executed with
+        # every Hypothesis test replaced by "run the recorded case if it is yours"; (b) anything else (probes, worker-based
+        # checks) is a pure function of code, tier and seed: the whole check is re-run at the recorded tier and seed.
+        c = body.get('case') if isinstance(body.get('case'), dict) else {}
+        if 'pickle' in c and 'check' in c:
+          ck.replay_body = body
+          ck.tier, ck.seed = body.get('tier', ck.tier), int(body.get('seed', ck.seed))
+          mod.main(ck)
+          if not getattr(ck, 'replay_done', False):
+            print('HARNESS-ERROR property=%s: replay file names test %r which main() did not run' % (pid, c.get('check')), flush=True)
+            sys.exit(2)
+        else:
+          ck.tier, ck.seed = body.get('tier', ck.tier), int(body.get('seed', ck.seed))
+          if hasattr(mod, 'regressions'):
+            mod.regressions(ck)
+          mod.main(ck)
     else:
       if hasattr(mod, 'regressions'):
         mod.regressions(ck)
